@@ -1,0 +1,44 @@
+//go:build verif
+
+// Contracts for package traceroute, read by /verif/govc (comment lines starting with //@).
+
+package traceroute
+
+//@ func performTCPFallback
+//@ safety C20
+//@ ensures[C20.syn]        (tcpMethod == "" || tcpMethod == TCPConfigSYN) ==> calls(doSyn) == old(calls(doSyn))+1 && calls(doSack) == old(calls(doSack)) && calls(doSynSocket) == old(calls(doSynSocket)) && ret0 == lastret(doSyn, 0) && ret1 == lastret(doSyn, 1)
+//@ ensures[C20.sack]       tcpMethod == TCPConfigSACK ==> calls(doSack) == old(calls(doSack))+1 && calls(doSyn) == old(calls(doSyn)) && calls(doSynSocket) == old(calls(doSynSocket)) && ret0 == lastret(doSack, 0) && ret1 == lastret(doSack, 1)
+//@ ensures[C20.synsocket]  tcpMethod == TCPConfigSYNSocket ==> calls(doSynSocket) == old(calls(doSynSocket))+1 && calls(doSyn) == old(calls(doSyn)) && calls(doSack) == old(calls(doSack)) && ret0 == lastret(doSynSocket, 0) && ret1 == lastret(doSynSocket, 1)
+//@ ensures[C20.prefer.once] tcpMethod == TCPConfigPreferSACK ==> calls(doSack) == old(calls(doSack))+1 && calls(doSynSocket) == old(calls(doSynSocket))
+//@ ensures[C20.prefer.fallback] tcpMethod == TCPConfigPreferSACK ==> calls(doSyn) == old(calls(doSyn)) + ite(chain(lastret(doSack, 1), *sack.NotSupportedError), 1, 0)
+//@ ensures[C20.prefer.syn] tcpMethod == TCPConfigPreferSACK && chain(lastret(doSack, 1), *sack.NotSupportedError) ==> ret0 == lastret(doSyn, 0) && ret1 == lastret(doSyn, 1)
+//@ ensures[C20.prefer.ok]  tcpMethod == TCPConfigPreferSACK && lastret(doSack, 1) == nil ==> ret0 == lastret(doSack, 0) && ret1 == nil
+//@ ensures[C20.nomask]     tcpMethod == TCPConfigPreferSACK && lastret(doSack, 1) != nil && !chain(lastret(doSack, 1), *sack.NotSupportedError) ==> ret0 == nil && ret1 != nil && wraps(ret1, lastret(doSack, 1))
+//@ ensures[C19+C20.unknown] !(tcpMethod == "" || tcpMethod == TCPConfigSYN || tcpMethod == TCPConfigSACK || tcpMethod == TCPConfigSYNSocket || tcpMethod == TCPConfigPreferSACK) ==> ret0 == nil && ret1 != nil && calls(doSyn) == old(calls(doSyn)) && calls(doSack) == old(calls(doSack)) && calls(doSynSocket) == old(calls(doSynSocket))
+
+//@ func parseTarget
+//@ safety C19
+//@ ensures[C19.port.range]  ret1 == nil ==> int(ret0.Port()) >= 1 && int(ret0.Port()) <= 65535
+//@ ensures[C10.target.atom] ret1 != nil ==> !ret0.IsValid() && ret0.Port() == 0
+
+//@ func makeSackParams
+//@ safety C19
+//@ ensures[C19.sack.ttl]    ret1 == nil ==> ret0.ParallelParams.MinTTL == minTTL && ret0.ParallelParams.MaxTTL == maxTTL && ret0.Target.Port() == targetPort && ret0.LoosenICMPSrc
+//@ ensures[C08.sack.timeouts] ret1 == nil ==> ret0.HandshakeTimeout == timeout && ret0.ParallelParams.TracerouteTimeout == timeout && int(ret0.ParallelParams.PollFrequency) == 100000000 && int(ret0.ParallelParams.SendDelay) == 10000000
+
+//@ func runTracerouteOnce
+//@ safety C19
+//@ ensures[C10.once.atom]   ret1 != nil ==> ret0 == nil
+//@ ensures[C03.once.hops]   ret1 == nil ==> ret0 != nil && forall(i, 0, len(ret0.Hops), ret0.Hops[i] != nil)
+//@ ensures[C19.once.ttl]    ret1 == nil ==> 1 <= params.MinTTL && params.MinTTL <= params.MaxTTL && params.MaxTTL <= 255
+//@ ensures[C19.once.proto]  ret1 == nil ==> params.Protocol == "udp" || params.Protocol == "tcp" || params.Protocol == "icmp"
+//@ ensures[C19.once.method] ret1 == nil && params.Protocol == "tcp" ==> params.TCPMethod == "" || params.TCPMethod == TCPConfigSYN || params.TCPMethod == TCPConfigSACK || params.TCPMethod == TCPConfigSYNSocket || params.TCPMethod == TCPConfigPreferSACK
+//@ modifies *
+
+//@ func runE2eProbeOnce
+//@ safety C20
+//@ ensures[C20.e2e.syn]     params.Protocol == "tcp" && (params.TCPMethod == TCPConfigSACK || params.TCPMethod == TCPConfigPreferSACK) ==> lastarg(runTracerouteOnce, params).TCPMethod == TCPConfigSYN
+//@ ensures[C20.e2e.other]   !(params.Protocol == "tcp" && (params.TCPMethod == TCPConfigSACK || params.TCPMethod == TCPConfigPreferSACK)) ==> lastarg(runTracerouteOnce, params).TCPMethod == params.TCPMethod
+//@ ensures[C05.e2e.single]  lastarg(runTracerouteOnce, params).MinTTL == params.MaxTTL && lastarg(runTracerouteOnce, params).MaxTTL == params.MaxTTL
+//@ ensures[C10.e2e.err]     ret1 != nil ==> ret0 == 0.0
+//@ modifies *
